@@ -193,8 +193,13 @@ class Portfolio:
         total = 0.0
         outs = []
         solvers = list(ob.meta.get('solvers', self.order))
-        # first try: primary solver with short timeout, then the others with the full one
-        plan = [(solvers[0], min(self.timeout, 4))] + [(s, self.timeout) for s in solvers[1:]] + [(solvers[0], self.timeout)]
+        if 'solvers' not in ob.meta and ('FloatingPoint' in txt or 'fp.' in txt):
+            solvers = ['z3'] + [s for s in solvers if s != 'z3']       # z3 4.8.12 is the quick one on the FP obligations here
+        # first try: primary solver with short timeout, then the others with the full one, then two long last attempts
+        # (they only cost time when an obligation is about to be reported as not discharged, e.g. on a loaded machine)
+        isfp = 'FloatingPoint' in txt or 'fp.' in txt
+        plan = [(solvers[0], self.timeout if isfp else min(self.timeout, 4))] + [(s, self.timeout) for s in solvers[1:]] + [(solvers[0], self.timeout)]
+        plan += [(solvers[0], 3 * self.timeout), (solvers[1], 3 * self.timeout)]
         decided = None
         if getattr(ob, 'smt2_rel', None) and ob.kind == 'proof':
             rpath = path[:-5] + '-rel.smt2'
